@@ -403,6 +403,32 @@ func (g *Gen) next2(m *Model) Step {
 			pred = isEpic
 		}
 		c := Cmd{Op: "sequence", Human: human}
+		if g.R.Chance(1, 4) {
+			// a shortcut: A and C are already ordered through B (C after B after
+			// A); ask for the direct edge as well
+			ord := map[string]int{}
+			for i, id := range m.Order {
+				ord[id] = i
+			}
+			var chains [][2]string
+			for _, cid := range m.LiveIDs() {
+				for _, bid := range m.DepList(cid) {
+					if m.Items[bid] == nil {
+						continue
+					}
+					for _, aid := range m.DepList(bid) {
+						if m.Items[aid] != nil && !m.Items[cid].Deps[aid] {
+							chains = append(chains, [2]string{fmt.Sprintf("#%d", ord[aid]), fmt.Sprintf("#%d", ord[cid])})
+						}
+					}
+				}
+			}
+			if len(chains) > 0 {
+				ch := chains[g.R.Intn(len(chains))]
+				c.IDs = []string{ch[0], ch[1]}
+				return Step{Cmd: &c}
+			}
+		}
 		for i := 0; i < n; i++ {
 			c.IDs = append(c.IDs, g.ref(m, pred, g.bad() && g.R.Chance(1, 2)))
 		}
